@@ -43,6 +43,10 @@ class _Inline:
 INLINE = _Inline()    # returned by a spec that does not cover this argument shape: callers run the body
 
 
+class PreconditionNotMet(Exception):
+    """raised by C.requires in concrete mode: the sampled input lies outside the contract's precondition"""
+
+
 class Contract:
     def __init__(self, qualname, spec=None, post=None, shapes=(), props=(), kind='internal', note='',
                  observe_args=True, target=None):
@@ -119,6 +123,12 @@ class SpecCtx:
     def requires(self, cond, what=''):
         if cond is True:
             return
+        if not sym.have_ctx():
+            # concrete evaluation (native replay / bounded stand-in): an input outside the precondition is not a test of the contract
+            if cond is False or (not sym.is_sym(cond) and not cond):
+                raise PreconditionNotMet(what)
+            if not sym.is_sym(cond):
+                return
         c = sym.ctx()
         if self.callsite:
             r, m = c.valid(cond)
@@ -163,7 +173,8 @@ class Sym:
     def int(self, name):
         self.decls[name] = ('int',)
         if self.values is not None:
-            return int(self.values[name])
+            v = self.values[name]
+            return None if v is None else int(v)        # (an optional argument may be concretised as None by a generator)
         return SInt(z3.Int(name))
 
     def bool(self, name):
@@ -190,6 +201,14 @@ class Sym:
             self.assumptions.append(n >= 0)
         arr = z3.Array(name + '.bits', z3.IntSort(), z3.BoolSort())
         return BA(n, lambda i, arr=arr: sym.mk_bool(z3.Select(arr, sym._int_t(i))))
+
+    def raw(self, name):
+        """a value that only ever exists concretely (a format string, a list): taken as is from the generator's / counter-model's
+        values; in symbolic mode the shape is not explorable"""
+        self.decls[name] = ('raw',)
+        if self.values is None:
+            raise sym.Unsupported(f'{name} has no symbolic form (bounded-only shape)')
+        return self.values[name]
 
     def assume(self, c):
         self.assumptions.append(c)
